@@ -11,6 +11,7 @@
 import ScalesModel.Adapter.E2E
 import ScalesModel.Adapter.TagPool
 import ScalesModel.Adapter.FrontEnd
+import ScalesModel.Proofs.MuxTimeoutLemmas
 namespace Scales.C12
 
 open Scales.TagPool in
@@ -149,6 +150,189 @@ theorem C12_mux_discard_after_send (s : St) (rid t : Nat) (r : Req)
   · simp [stepNotify, hr, hfired, hsub, hkey]
   · intro q s' hq
     simp [stepSend, hq]
+
+/-! ### history level, multiplexed transport
+
+  `cfg.max` is any pool size ≥ 2 and `ops` any sequence of atomic transport steps with `opsOk`
+  (every label is one the code can take in its state) — requests, deadline events firing at any
+  point, send-loop iterations, time-out callbacks, arbitrary peer frames, pings, re-opens.
+  `comp.spec` (= `spec12`: the C11 and C02 clauses and the three C12 clauses) is the predicate the
+  harness evaluates on the observations of the real `SocketTransportSink`. -/
+
+open Scales.TagPool in
+/-- **Specification level.**  The component's executable specification, C12 clauses included,
+    holds of every history of the model. -/
+theorem C12_mux_model_satisfies_spec (cfg : Cfg) (ops : List Op) (hc : cfgWF cfg = true)
+    (ho : opsOk cfg St.init ops = true) : comp.spec cfg (comp.modelTrace cfg ops) = .ok := by
+  simp only [cfgWF, decide_eq_true_eq] at hc
+  exact spec12_trace cfg hc ops {} St.init 0 (Inv_init cfg hc) Inv12_init ho
+
+open Scales.TagPool in
+/-- **No transmission after the time-out.**  Once the deadline event of request `rid` has fired,
+    no later step writes a request frame of `rid` (as long as the connection is not replaced,
+    which starts the request numbering afresh). -/
+theorem C12_mux_no_write_after_fire (cfg : Cfg) (ops : List Op) (hc : cfgWF cfg = true)
+    (ho : opsOk cfg St.init ops = true) (h1 h2 h3 : List (Op × Obs)) (rid : Nat) (o1 : Obs) (op : Op) (o : Obs)
+    (htr : comp.modelTrace cfg ops = h1 ++ (.fire rid, o1) :: (h2 ++ (op, o) :: h3))
+    (hno : ∀ p ∈ h2, p.1 ≠ .reopen) :
+    ∀ f ∈ o.wrote, f.kind = .req → f.arg ≠ rid := by
+  have hs := C12_mux_model_satisfies_spec cfg ops hc ho
+  have e : h1 ++ (Op.fire rid, o1) :: (h2 ++ (op, o) :: h3) = (h1 ++ (Op.fire rid, o1) :: h2) ++ (op, o) :: h3 := by
+    simp
+  rw [htr, e] at hs
+  have h12 := (specGo12_split cfg _ {} 0 op o h3 hs).2
+  have hnw := ((specObs12_ok_iff _ _ op o).mp h12).1
+  have hfired : rid ∈ (accAfter {} (h1 ++ (Op.fire rid, o1) :: h2)).fired := by
+    have e2 : h1 ++ (Op.fire rid, o1) :: h2 = h1 ++ ([(Op.fire rid, o1)] ++ h2) := by simp
+    rw [e2, accAfter_append, accAfter_append]
+    apply fired_mono rid h2 _ hno
+    simp [accAfter, Acc.after]
+  intro f hf hk e3
+  have hp : (f.tag, f.arg) ∈ reqPairs o.wrote := by
+    simp only [reqPairs, List.mem_map, List.mem_filter]
+    exact ⟨f, ⟨hf, by simp [hk]⟩, rfl⟩
+  have := hnw _ hp
+  simp only at this
+  rw [e3] at this
+  exact this hfired
+
+open Scales.TagPool in
+/-- the same for a request whose deadline had already passed when it was handed to the transport
+    (`req .pre`): it is the `nreq`-th request of the connection and is never written -/
+theorem C12_mux_no_write_if_expired_at_issue (cfg : Cfg) (ops : List Op) (hc : cfgWF cfg = true)
+    (ho : opsOk cfg St.init ops = true) (h1 h2 h3 : List (Op × Obs)) (popped : Nat) (o1 : Obs) (op : Op) (o : Obs)
+    (htr : comp.modelTrace cfg ops = h1 ++ (.req .pre popped, o1) :: (h2 ++ (op, o) :: h3))
+    (hno : ∀ p ∈ h2, p.1 ≠ .reopen) :
+    ∀ f ∈ o.wrote, f.kind = .req → f.arg ≠ (accAfter {} h1).nreq := by
+  have hs := C12_mux_model_satisfies_spec cfg ops hc ho
+  have e : h1 ++ (Op.req .pre popped, o1) :: (h2 ++ (op, o) :: h3)
+      = (h1 ++ (Op.req .pre popped, o1) :: h2) ++ (op, o) :: h3 := by simp
+  rw [htr, e] at hs
+  have h12 := (specGo12_split cfg _ {} 0 op o h3 hs).2
+  have hnw := ((specObs12_ok_iff _ _ op o).mp h12).1
+  have hfired : (accAfter {} h1).nreq ∈ (accAfter {} (h1 ++ (Op.req .pre popped, o1) :: h2)).fired := by
+    have e2 : h1 ++ (Op.req .pre popped, o1) :: h2 = h1 ++ ([(Op.req .pre popped, o1)] ++ h2) := by simp
+    rw [e2, accAfter_append, accAfter_append]
+    apply fired_mono _ h2 _ hno
+    simp [accAfter, Acc.after]
+  intro f hf hk e3
+  have hp : (f.tag, f.arg) ∈ reqPairs o.wrote := by
+    simp only [reqPairs, List.mem_map, List.mem_filter]
+    exact ⟨f, ⟨hf, by simp [hk]⟩, rfl⟩
+  have := hnw _ hp
+  simp only at this
+  rw [e3] at this
+  exact this hfired
+
+open Scales.TagPool in
+/-- **A sent request that times out is discarded.**  Request `rid`'s frame was written with tag
+    `t` and not answered since (`(t, rid) ∈ unansweredPairs h1`); its time-out callback runs
+    (`notify rid`, which requires the fired event); when afterwards, on the same connection, the
+    send queue is found empty, a Tdiscarded naming `t` has been written in between. -/
+theorem C12_mux_discard_written (cfg : Cfg) (ops : List Op) (hc : cfgWF cfg = true)
+    (ho : opsOk cfg St.init ops = true) (h1 h2 h3 : List (Op × Obs)) (rid t : Nat) (o1 : Obs) (op : Op) (o : Obs)
+    (htr : comp.modelTrace cfg ops = h1 ++ (.notify rid, o1) :: (h2 ++ (op, o) :: h3))
+    (hw : (t, rid) ∈ unansweredPairs h1)
+    (hno : ∀ p ∈ h2, p.1 ≠ .reopen) (hop : op ≠ .reopen) (hdrain : o.qlen = 0) :
+    ∃ p ∈ (Op.notify rid, o1) :: (h2 ++ [(op, o)]), ∃ f ∈ p.2.wrote, f.kind = .discard ∧ f.arg = t := by
+  have hs := C12_mux_model_satisfies_spec cfg ops hc ho
+  have e : h1 ++ (Op.notify rid, o1) :: (h2 ++ (op, o) :: h3)
+      = (h1 ++ (Op.notify rid, o1) :: h2) ++ (op, o) :: h3 := by simp
+  rw [htr, e] at hs
+  have h12 := (specGo12_split cfg _ {} 0 op o h3 hs).2
+  have hdd := ((specObs12_ok_iff _ _ op o).mp h12).2.2 hdrain
+  -- the accumulator just before the notify step, and what is due in that step
+  have hdue : t ∈ dueNow (accAfter {} h1) (.notify rid) := by
+    simp only [dueNow, List.mem_append]
+    right
+    simp only [tagsOf, List.mem_map, List.mem_filter, beq_iff_eq]
+    exact ⟨(t, rid), ⟨hw, rfl⟩, rfl⟩
+  -- at the end nothing is due
+  have hend : t ∉ (accAfter ((accAfter {} h1).after (.notify rid) o1) (h2 ++ [(op, o)])).owed := by
+    have e2 : accAfter ((accAfter {} h1).after (.notify rid) o1) (h2 ++ [(op, o)])
+        = (accAfter {} (h1 ++ (Op.notify rid, o1) :: h2)).after op o := by
+      have e3 : h1 ++ (Op.notify rid, o1) :: h2 = h1 ++ ([(Op.notify rid, o1)] ++ h2) := by simp
+      rw [e3, accAfter_append, accAfter_append, accAfter_append]
+      simp [accAfter]
+    rw [e2, hdd]; simp
+  have toFrame : ∀ (p : Op × Obs), t ∈ discTags p.2.wrote → ∃ f ∈ p.2.wrote, f.kind = .discard ∧ f.arg = t := by
+    intro p hp
+    simp only [discTags, List.mem_map, List.mem_filter, beq_iff_eq] at hp
+    obtain ⟨f, ⟨hf, hk⟩, ha⟩ := hp
+    exact ⟨f, hf, hk, ha⟩
+  by_cases hd : t ∈ discTags o1.wrote
+  · exact ⟨(Op.notify rid, o1), by simp, toFrame _ hd⟩
+  · have hin : t ∈ ((accAfter {} h1).after (.notify rid) o1).owed := by
+      rw [after_owed _ _ _ (by simp)]
+      exact mem_eraseAll _ _ hdue hd
+    have hno' : ∀ p ∈ h2 ++ [(op, o)], p.1 ≠ .reopen := by
+      intro p hp
+      simp only [List.mem_append, List.mem_singleton] at hp
+      rcases hp with hp | hp
+      · exact hno p hp
+      · subst hp; exact hop
+    obtain ⟨p, hp, hpd⟩ := owed_consumed t _ _ hno' hin hend
+    exact ⟨p, List.mem_cons_of_mem _ hp, toFrame p hpd⟩
+
+open Scales.TagPool in
+/-- **Exactly one Tdiscarded becomes due per timed-out, written request.**  At the time-out
+    callback of request `rid`, whose frame was written with tag `t` and is unanswered, the tags
+    that become due are exactly `[t]`. -/
+theorem C12_mux_due_once (cfg : Cfg) (ops : List Op) (hc : cfgWF cfg = true)
+    (ho : opsOk cfg St.init ops = true) (h1 h2 : List (Op × Obs)) (rid t : Nat) (o1 : Obs)
+    (htr : comp.modelTrace cfg ops = h1 ++ (.notify rid, o1) :: h2)
+    (hw : (t, rid) ∈ unansweredPairs h1) :
+    dueAdded (accAfter {} h1) (.notify rid) = [t] := by
+  simp only [cfgWF, decide_eq_true_eq] at hc
+  obtain ⟨o1', o2', hops, hh1, hok1, hh2, hok2⟩ := trace_prefix cfg ops h1 _ ho htr
+  have hinv := Inv_trace cfg hc o1' {} St.init (Inv_init cfg hc) hok1
+  have hinv12 := Inv12_trace cfg hc o1' {} St.init (Inv_init cfg hc) Inv12_init hok1
+  rw [← hh1] at hinv hinv12
+  -- the first operation of the rest is the notify, and it is enabled
+  cases o2' with
+  | nil => simp [TComp.trace] at hh2
+  | cons op' rest =>
+    simp only [TComp.trace, List.cons.injEq, Prod.mk.injEq] at hh2
+    obtain ⟨⟨hop', _⟩, _⟩ := hh2
+    subst hop'
+    simp only [opsOk, Bool.and_eq_true] at hok2
+    have hen := hok2.1
+    simp only [opEnabled, stepOp, stepNotify] at hen
+    have hs : reachFrom cfg St.init o1' = reach cfg o1' := rfl
+    rw [hs] at hinv hinv12
+    cases hr : (reach cfg o1').reqs[rid]? with
+    | none => simp [hr] at hen
+    | some r =>
+      simp only [hr] at hen
+      by_cases hev : r.ev = .fired ∧ r.sub = true
+      · have hsk := hinv12.subkey rid r hr hev.2
+        have hk : r.key = .tag t := (hsk t).mpr hw
+        have hall : ∀ t', (t', rid) ∈ (accAfter {} h1).unans → t' = t := by
+          intro t' ht'
+          have := (hsk t').mpr ht'
+          rw [hk] at this; injection this with e; exact e.symm
+        exact tagsOf_single hw hinv12.tnd hall
+      · simp [hev] at hen
+
+open Scales.TagPool in
+/-- **… and each is written once.**  Over any stretch of a model history without re-open, from
+    any point on: the Tdiscarded frames written naming `t`, plus the entries for `t` still due at
+    the end, are exactly the entries due at the start plus those that became due in between — no
+    Tdiscarded is written that was not due, none is written twice, none is lost. -/
+theorem C12_mux_discard_exactly_once (cfg : Cfg) (ops : List Op) (hc : cfgWF cfg = true)
+    (ho : opsOk cfg St.init ops = true) (h1 h2 h3 : List (Op × Obs)) (t : Nat)
+    (htr : comp.modelTrace cfg ops = h1 ++ h2 ++ h3) (hno : ∀ p ∈ h2, p.1 ≠ .reopen) :
+    discardsWritten t h2 + (owedAfter (h1 ++ h2)).count t
+      = (owedAfter h1).count t + madeDue t (accAfter {} h1) h2 := by
+  have hs := C12_mux_model_satisfies_spec cfg ops hc ho
+  rw [htr] at hs
+  have hs12 : specGo12 cfg (accAfter {} h1) (0 + h1.length) h2 = .ok := by
+    have h1' := specGo12_prefix cfg (h1 ++ h2) h3 {} 0 hs
+    exact specGo12_suffix cfg h1 h2 {} 0 h1'
+  have hok := discStepsOk_of_spec12 cfg h2 _ _ hs12
+  have := discard_accounting t h2 (accAfter {} h1) hno hok
+  simp only [owedAfter, accAfter_append]
+  exact this
 
 open Scales.FrontEnd in
 /-- Dispatch hop: a call whose deadline has passed when it is dispatched gets TimeoutError at
